@@ -464,3 +464,31 @@ def nested_middle_family():
             for i in inner:
                 out.append(o % (m % i))
     return list(dict.fromkeys(out))
+
+
+def flag_scope_family():
+    """case flags written BEFORE or INSIDE a group (alternation, repetition, class in a branch), next to literals without
+    cased characters (their text stays invariant under (?i)): the scope of a flag crosses group boundaries in the
+    expression (it threads left to right) but every literal is compiled under its own flag"""
+    pres = ["(?i)2024", "(?i)1", "(?i)7/", "(?i)_", "(?i)a", "2024", "(?i)2/(?-i)x(?i)3"]
+    groups = ["{log,log}", "<ab:2>", "{log}", "{[b]}", "<x:1>", "{x,x}", "<[b]:2>", "{a{b,b}}", "<<b:1>:2>", "{b/c}", "{é}", "<ǆ:1>"]
+    out = []
+    for p in pres:
+        for g in groups:
+            out += [p + "(?-i)" + g, p + g[0] + "(?-i)" + g[1:], p + g, p + "(?-i)" + g + "(?i)9", p + g + "(?-i)z", p + "(?i)" + g]
+    return list(dict.fromkeys(out))
+
+
+def inherited_neighbour_family():
+    """a rule violation between the terminal of a NESTED branch and a neighbour the nested branch INHERITS from an enclosing
+    one (the error correlates two spans: the inherited neighbour, left or right, and the terminal)"""
+    rights = [("c/", "/d"), ("c/**", "/d"), ("c*", "*d"), ("c/", "/**/d"), ("c$", "*d"), ("é/", "/é"), ("c", "d")]
+    lefts = [("/c", "a/"), ("**/c", "a/"), ("*c", "a*"), ("/c", "a/**/"), ("/é", "é/"), ("c", "a")]
+    out = []
+    for x, r in rights:
+        out += ["{a,{b,%s}}%s" % (x, r), "{{b,%s},a}%s" % (x, r), "<a{b,%s}:1,>%s" % (x, r), "{a,<b%s:2>}%s" % (x, r), "{a,{b,{e,%s}}}%s" % (x, r),
+                "x/{a,{b,%s}}%s" % (x, r), "{a,{%s,b}}%s" % (x, r), "{a,{b,%s}q}%s" % (x, r), "{a,<{b,%s}:1,2>}%s" % (x, r)]
+    for x, l in lefts:
+        out += ["%s{a,{b,%s}}" % (l, x), "%s{{%s,b},a}" % (l, x), "%s<{b,%s}a:1,>" % (l, x), "%s{a,<%sb:2>}" % (l, x), "%s{a,{b,{e,%s}}}" % (l, x),
+                "%s{a,{b,%s}}/y" % (l, x), "%s{a,q{%s,b}}" % (l, x)]
+    return list(dict.fromkeys(out))
